@@ -165,31 +165,8 @@ def check(ctx):
 
 
 def enum_encode_table(ctx, body):
-    """{Variant: int} for `match e { E::V => n, .. }`"""
-    an = ctx.an(body)
-    sw = [b for b in body.blocks if b.term.kind == "switch" and not b.cleanup]
-    if len(sw) != 1:
-        return {}
-    info = an.switch_info(sw[0].idx)
-    tbl = {}
-    for tb, labels in info[1].items():
-        cur = tb
-        val = None
-        for _ in range(5):
-            blk = body.blocks[cur]
-            for s in blk.stmts:
-                if s.kind == "assign" and s.place.is_local() and s.place.local == 0 and s.rv.k == "use":
-                    val = s.rv.ops[0].const_int()
-            if val is not None:
-                break
-            ss = blk.term.successors()
-            if len(ss) != 1:
-                break
-            cur = ss[0]
-        for l in labels:
-            if l != "otherwise" and val is not None:
-                tbl[l] = val
-    return tbl
+    """{Variant: int} of a From<E> for VarInt body (path enumeration)"""
+    return codec.encode_table(ctx, body)
 
 
 def primitives(ctx, spec):
@@ -287,17 +264,7 @@ def primitives(ctx, spec):
                   reason="%s reads at most %s groups (loop range %s); a %d-bit value needs up to %d groups of 7 bits, so every value whose "
                          "encoding uses %d bytes (all negative numbers) cannot be decoded" % (fn, (rng[1] - rng[0]) if rng else "?", rng, width, groups, groups),
                   detail="%s loops over 0..%d groups" % (fn, groups))
-        consts = set()
-        shifts = []
-        for blk in b.blocks:
-            if blk.cleanup:
-                continue
-            for i, s in enumerate(blk.stmts):
-                if s.kind == "assign" and s.rv.k == "binop" and not b.is_noise(s):
-                    op = s.rv.j["op"]
-                    for o in s.rv.ops:
-                        if o.const_int() is not None:
-                            consts.add((op, o.const_int()))
+        consts = binop_consts(ctx, b)
         ok = ("BitAnd", 127) in consts and ("BitAnd", 128) in consts and (("MulWithOverflow", 7) in consts or ("Mul", 7) in consts)
         ctx.check(ok, R, "C09/primitives-shape/%s/group-arith" % fn, b.loc,
                   reason="%s: expected mask 0x7f, continuation bit 0x80 and shift 7*i; constants seen: %s" % (fn, sorted(consts)),
@@ -309,15 +276,7 @@ def primitives(ctx, spec):
         b = body(fn)
         if b is None:
             continue
-        consts = set()
-        for blk in b.blocks:
-            if blk.cleanup:
-                continue
-            for s in blk.stmts:
-                if s.kind == "assign" and s.rv.k == "binop" and not b.is_noise(s):
-                    for o in s.rv.ops:
-                        if o.const_int() is not None:
-                            consts.add((s.rv.j["op"], o.const_int()))
+        consts = binop_consts(ctx, b)
         ok = ("BitAnd", 127) in consts and ("Shr", 7) in consts and ("BitOr", 128) in consts and ("Shr", 6) in consts \
             and (("Eq", 0) in consts or ("Ne", 0) in consts)
         ctx.check(ok, R, "C09/primitives-shape/%s/loop" % fn, b.loc,
